@@ -37,6 +37,10 @@ class ImperialistCompetitiveOptimization(OptimizationAbstract):
     def set_config_parameters(self, parameters: dict[str, Any]):
         self._config = ImperialistCompetitiveOptimizationConfig(**parameters)
 
+    def before_initialization(self):
+        # the empires of a previous run must not take part in this one
+        self.__empires = []
+
     def _init_population(self):
         # Create countries
         k = self._config.number_of_countries
